@@ -29,7 +29,7 @@ Chk(cond, e, i, p, clause) == IF cond THEN TRUE ELSE Say(e, i, p, clause)
 ObjIdx(x) == CHOOSE i \in DOMAIN ObjQ : ObjQ[i] = x
 Proj(o) == [fmt |-> o.fmt, codes |-> o.codes, cfg |-> o.cfg, st |-> o.st]
 \* which property a deviation of the TARGET's value/format belongs to, by the kind of call
-ValueProp(a) == CASE a.act \in {"New", "Store", "SetItem"} -> "C01"
+ValueProp(a) == CASE a.act \in {"New", "Store", "SetItem"} -> "C01" [] a.act = "SetItemFxp" -> "C10"
                   [] a.act \in {"Resize", "CtorLike", "Like", "LikeShallow", "Assign", "DeepCopy", "CopyShallow"} -> "C10"
                   [] a.act = "BinOp" -> "C07" [] a.act = "BinOpOut" -> "C08" [] a.act = "Neg" -> "C08" [] a.act = "RShiftKeep" -> "C14" [] a.act = "Invert" -> "C13"
                   [] OTHER -> "C20"
@@ -69,7 +69,7 @@ Judge(e, S1) ==
    LET tgt == Sys!Target(e.a) IN
    /\ \A x \in ObjS : AgreeObj(e, x, S1.objs[x], e.obs[x], x = tgt)
    /\ \A x \in ObjS : WellFormedObs(e, x, e.obs[x])
-   /\ (e.a.act \in {"Store", "SetItem"} => Chk(e.cb = Sys!CbStep(IF e.i = 1 THEN Sys!InitS ELSE st, e.a), e, ObjIdx(tgt), "C04", "callbacks"))
+   /\ (e.a.act \in {"Store", "SetItem", "SetItemFxp"} => Chk(e.cb = Sys!CbStep(IF e.i = 1 THEN Sys!InitS ELSE st, e.a), e, ObjIdx(tgt), "C04", "callbacks"))
    /\ (e.a.act = "SetCfgBad" => Chk(e.raised, e, ObjIdx(tgt), "C20", "invalid-config-accepted"))
    /\ (e.a.act # "SetCfgBad" => Chk(~e.raised, e, 0, ValueProp(e.a), "raised." \o e.err))
    /\ Chk(e.cont, e, 0, "C20", "input-container-modified")
